@@ -537,8 +537,11 @@ class Interp:
         elif v.kind == "TAINT":
             add |= v.origins
         ctx = self.ctx_origins()
-        explicit = (isinstance(e, ast.Yield) and isinstance(e.value, ast.Tuple) and len(e.value.elts) == 3 and self.ev(e.value.elts[2], env).kind != "TAINT"
-                    and self.fn.key in self.pkg.scheduled)
+        # an item `(old, new, transaction)` with an explicit transaction number: the scheduler's result does not depend on the order in which the
+        # items of one numbered transaction arrive (final-sort contract) - whether the yield stands in a rule or in a helper the rule draws from
+        # (`yield from helper(...)`).  The transaction number itself must not be order-dependent (a parameter is judged at the call site).
+        third = self.ev(e.value.elts[2], env) if isinstance(e, ast.Yield) and isinstance(e.value, ast.Tuple) and len(e.value.elts) == 3 else None
+        explicit = third is not None and (third.kind != "TAINT" or all(o.startswith("@param:") for o in third.origins))
         if ctx and explicit:
             self.fn.waived.append((e.lineno, dotted(e)[:80]))
         elif ctx:
